@@ -151,6 +151,13 @@ class TBase(io.RawIOBase):
         emit(('read', name_of(self), p, n if n is not None and n >= 0 else len(b), len(b)))
         return b
 
+    def readinto(self, buf):
+        p = self.inner.tell()
+        b = self.inner.read(len(buf))
+        buf[:len(b)] = b
+        emit(('read', name_of(self), p, len(buf), len(b)))
+        return len(b)
+
     def write(self, data):
         p = self.inner.tell()
         k = self.inner.write(data)
@@ -268,6 +275,19 @@ def install():
     _wrap_positioned(I.IVFCLevel4Reader, 'read', 'rw')
     _wrap_positioned(I.IVFCLevel4Reader, 'write', 'rw')
     _wrap_positioned(I.IVFCLevel4Reader, 'seek', 'seek')
+    # any further entry point of the file API a positioned class defines itself (the tree under test may have more than read/write)
+    for cls in (F.SubsectionIO, F.SplitFileMerger, C._ReaderOpenFileBase, D.DPFSLevel3FileIO, I.IVFCLevel4Reader):
+        for meth in ('readinto', 'readall', 'readline'):
+            if meth in cls.__dict__:
+                _wrap_positioned(cls, meth, 'rw')
+
+
+def own_readinto(h):
+    """does this handle have a readinto of the library's own (io.RawIOBase only has a stub that raises)"""
+    for klass in type(h).__mro__:
+        if 'readinto' in klass.__dict__:
+            return klass.__module__.startswith('pyctr')
+    return False
 
 
 def uninstall():
